@@ -220,6 +220,34 @@ func injectFaults(fresh func() []*doc.Node, emit func(f fault)) {
 				emit(fault{kind: v.kind + "@" + kindOf(kw), nodes: t, culprits: []*doc.Node{x}, injected: x, parent: par})
 			}
 		}
+		// 7. (for C02) a fault inside a schema that is only found when the schema is loaded: the body
+		// keeps its properties and gets one more, faulty, first property
+		if n.Body != "" && kw != "Description" && kw != "ENUM" && kw != "Path" && !contains(n.Params, "regex") {
+			ls := strings.Split(n.Body, "\n")
+			if len(ls) >= 2 && strings.HasPrefix(ls[0], "{") && ls[len(ls)-1] == "}" {
+				for _, v := range []struct{ kind, prop string }{
+					{"schema-error-incompatible-rule", "\"zzfault\": 1 // {type: \"string\"}"},
+					{"schema-error-unknown-rule", "\"zzfault\": 1 // {nosuchrule: 1}"},
+					{"schema-error-duplicate-key", "\"zzfault\": 1,\n  \"zzfault\": 2"},
+				} {
+					t := fresh()
+					x, par := idxOf(t, k)
+					inner := ls[1 : len(ls)-1]
+					nb := ls[0] + "\n  " + v.prop
+					if len(inner) > 0 {
+						// the rule comment must stay last on its line: the comma goes before it
+						if i := strings.Index(v.prop, " //"); i >= 0 {
+							nb = ls[0] + "\n  " + v.prop[:i] + "," + v.prop[i:]
+						} else {
+							nb += ","
+						}
+						nb += "\n" + strings.Join(inner, "\n")
+					}
+					x.Body = nb + "\n}"
+					emit(fault{kind: v.kind + "@" + kindOf(kw), nodes: t, culprits: []*doc.Node{x}, injected: x, parent: par})
+				}
+			}
+		}
 		if kw == "PASTE" {
 			t := fresh()
 			x, par := idxOf(t, k)
@@ -260,120 +288,142 @@ func methodOrURL(kw string) string {
 }
 
 func runC11(c *fw.Ctx) {
+	runFaults(c, "C11:", func(kind string) bool { return !strings.HasPrefix(kind, "schema-error-") })
+}
+
+// runFaults injects single faults into accepted pool documents (directly, through PASTE, through
+// INCLUDE) and requires rejection located inside a directive that takes part in the fault.
+func runFaults(c *fw.Ctx, sigPrefix string, keep func(kind string) bool) {
 	dir := drv.NewDir(fw.Scratch("c11"))
 	defer os.RemoveAll(filepath.Dir(dir.Path))
 	defer dir.Close()
 	opt := drv.Options{FixedSeed: true}
 	seen := map[string]bool{}
-	docSets(!c.Quick(), func(name string, blocks []doc.Block) {
-		if c.Expired() {
-			return
-		}
-		fresh := func() []*doc.Node { return doc.Assemble(blocks) }
-		baseText := doc.Text(fresh())
-		if seen[baseText] {
-			return
-		}
-		seen[baseText] = true
-		baseOK := -1
-		for _, delivery := range []string{"direct", "paste", "include"} {
-			delivery := delivery
-			injectFaults(fresh, func(f fault) { // fresh trees per delivery: deliveries edit the tree in place
-				for once := true; once; once = false {
-					if !c.Next() {
-						continue
+	docSets(!c.Quick(), func(name0 string, blocks0 []doc.Block) {
+		for _, reversed := range []bool{false, true} { // declarations in pool order and in the opposite order (use before declaration)
+			name, blocks := name0, blocks0
+			if reversed {
+				if len(blocks0) < 2 {
+					continue
+				}
+				name += " reversed"
+				blocks = make([]doc.Block, len(blocks0))
+				for i, b := range blocks0 {
+					blocks[len(blocks0)-1-i] = b
+				}
+			}
+			if c.Expired() {
+				return
+			}
+			fresh := func() []*doc.Node { return doc.Assemble(blocks) }
+			baseText := doc.Text(fresh())
+			if seen[baseText] {
+				continue
+			}
+			seen[baseText] = true
+			baseOK := -1
+			for _, delivery := range []string{"direct", "paste", "include"} {
+				delivery := delivery
+				injectFaults(fresh, func(f fault) { // fresh trees per delivery: deliveries edit the tree in place
+					if !keep(f.kind) {
+						return
 					}
-					if baseOK < 0 {
-						baseOK = 0
-						if run1(baseText).OK() {
-							baseOK = 1
-						}
-					}
-					if baseOK == 0 {
-						continue
-					}
-					c.Describe(name + " " + f.kind + " " + delivery)
-					// delivery
-					nodes := f.nodes
-					culprits := append([]*doc.Node{}, f.culprits...)
-					files := map[string]*doc.Rendered{}
-					// faults inside a never-pasted macro are dead code (not judged); inside a live macro
-					// every PASTE on the way to it takes part in the fault
-					dead, chain := macroContext(f.nodes, f.culprits)
-					if dead {
-						c.Count("not_judged_dead_macro", 1)
-						continue
-					}
-					culprits = append(culprits, chain...)
-					switch delivery {
-					case "paste":
-						if f.injected == nil || f.injected.Kw == "MACRO" || f.injected.Kw == "JSIGHT" || f.injected.Kw == "TAG" || f.injected.Kw == "Tags" ||
-							f.injected.Kw == "Protocol" || f.injected.Kw == "Method" || f.injected.Kw == "Params" || f.injected.Kw == "Result" ||
-							(f.parent != nil && (f.parent.Kw == "Method" || f.parent.Kw == "TAG")) || strings.HasPrefix(f.kind, "missing-parameter-PASTE") {
-							continue // not admitted inside a MACRO / PASTE not admitted at that place
-						}
-						ps := doc.N("PASTE", "@flt")
-						if !replaceNode(&nodes, f.injected, ps) {
+					for once := true; once; once = false {
+						if !c.Next() {
 							continue
 						}
-						mac := doc.N("MACRO", "@flt").WithParen().WithKids(f.injected)
-						nodes = append(nodes, mac)
-						culprits = append(culprits, ps)
-					case "include":
-						if f.injected == nil || f.injected.Kw == "JSIGHT" {
+						if baseOK < 0 {
+							baseOK = 0
+							if run1(baseText).OK() {
+								baseOK = 1
+							}
+						}
+						if baseOK == 0 {
 							continue
 						}
-						inc := doc.N("INCLUDE", "flt.jst")
-						if !replaceNode(&nodes, f.injected, inc) {
+						c.Describe(name + " " + f.kind + " " + delivery)
+						// delivery
+						nodes := f.nodes
+						culprits := append([]*doc.Node{}, f.culprits...)
+						files := map[string]*doc.Rendered{}
+						// faults inside a never-pasted macro are dead code (not judged); inside a live macro
+						// every PASTE on the way to it takes part in the fault
+						dead, chain := macroContext(f.nodes, f.culprits)
+						if dead {
+							c.Count("not_judged_dead_macro", 1)
 							continue
 						}
-						files["flt.jst"] = doc.Render([]*doc.Node{f.injected}, doc.DefaultStyle())
-						culprits = append(culprits, inc)
-					}
-					files["root.jst"] = doc.Render(nodes, doc.DefaultStyle())
-					c.Count("evaluations", 1)
-					p := drv.Project{Root: "root.jst", Files: map[string]string{}}
-					for fn, r := range files {
-						p.Files[fn] = r.Text
-					}
-					c.Distinct(fmt.Sprint(p.Files))
-					var o drv.Outcome
-					if len(files) == 1 {
-						o = drv.RunMem("root.jst", p.Files["root.jst"], opt)
-					} else {
-						o, _ = dir.Run(p, opt, false)
-					}
-					if o.Crashed() {
-						c.Count("skipped_crash", 1)
-						continue
-					}
-					bad := ""
-					if !o.Rejected() {
-						bad = "the faulty document is " + o.Short()
-					} else {
-						in := false
-						for fn, r := range files {
-							if o.File != "" && filepath.Base(o.File) != fn {
+						culprits = append(culprits, chain...)
+						switch delivery {
+						case "paste":
+							if f.injected == nil || f.injected.Kw == "MACRO" || f.injected.Kw == "JSIGHT" || f.injected.Kw == "TAG" || f.injected.Kw == "Tags" ||
+								f.injected.Kw == "Protocol" || f.injected.Kw == "Method" || f.injected.Kw == "Params" || f.injected.Kw == "Result" ||
+								(f.parent != nil && (f.parent.Kw == "Method" || f.parent.Kw == "TAG")) || strings.HasPrefix(f.kind, "missing-parameter-PASTE") {
+								continue // not admitted inside a MACRO / PASTE not admitted at that place
+							}
+							ps := doc.N("PASTE", "@flt")
+							if !replaceNode(&nodes, f.injected, ps) {
 								continue
 							}
-							for _, cn := range culprits {
-								if sp := r.SpanOf(cn); sp != nil && o.Index >= sp.Begin && o.Index < sp.End {
-									in = true
+							mac := doc.N("MACRO", "@flt").WithParen().WithKids(f.injected)
+							nodes = append(nodes, mac)
+							culprits = append(culprits, ps)
+						case "include":
+							if f.injected == nil || f.injected.Kw == "JSIGHT" {
+								continue
+							}
+							inc := doc.N("INCLUDE", "flt.jst")
+							if !replaceNode(&nodes, f.injected, inc) {
+								continue
+							}
+							files["flt.jst"] = doc.Render([]*doc.Node{f.injected}, doc.DefaultStyle())
+							culprits = append(culprits, inc)
+						}
+						files["root.jst"] = doc.Render(nodes, doc.DefaultStyle())
+						c.Count("evaluations", 1)
+						p := drv.Project{Root: "root.jst", Files: map[string]string{}}
+						for fn, r := range files {
+							p.Files[fn] = r.Text
+						}
+						c.Distinct(fmt.Sprint(p.Files))
+						var o drv.Outcome
+						if len(files) == 1 {
+							o = drv.RunMem("root.jst", p.Files["root.jst"], opt)
+						} else {
+							o, _ = dir.Run(p, opt, false)
+						}
+						if o.Crashed() {
+							c.Count("skipped_crash", 1)
+							continue
+						}
+						bad := ""
+						if !o.Rejected() {
+							bad = "the faulty document is " + o.Short()
+						} else {
+							in := false
+							for fn, r := range files {
+								if o.File != "" && filepath.Base(o.File) != fn {
+									continue
+								}
+								for _, cn := range culprits {
+									if sp := r.SpanOf(cn); sp != nil && o.Index >= sp.Begin && o.Index < sp.End {
+										in = true
+									}
 								}
 							}
+							if !in {
+								bad = fmt.Sprintf("rejected (%s) but %s:%d is outside every directive taking part in the fault", o.Msg, filepath.Base(o.File), o.Index)
+							}
 						}
-						if !in {
-							bad = fmt.Sprintf("rejected (%s) but %s:%d is outside every directive taking part in the fault", o.Msg, filepath.Base(o.File), o.Index)
+						if bad == "" {
+							c.Sample(f.kind, 1, map[string]interface{}{"doc": name, "fault": f.kind, "delivery": delivery, "diagnostic": o.Short()})
+							continue
 						}
+						c.Violate("fault-not-caught", sigPrefix+strings.SplitN(f.kind, "@", 2)[0]+":"+delivery+":"+map[bool]string{true: "accepted", false: "mislocated"}[!o.Rejected()],
+							fmt.Sprintf("%s, fault %s delivered %s: %s", name, f.kind, delivery, bad), map[string]interface{}{"project": p})
 					}
-					if bad == "" {
-						c.Sample(f.kind, 1, map[string]interface{}{"doc": name, "fault": f.kind, "delivery": delivery, "diagnostic": o.Short()})
-						continue
-					}
-					c.Violate("fault-not-caught", "C11:"+strings.SplitN(f.kind, "@", 2)[0]+":"+delivery+":"+map[bool]string{true: "accepted", false: "mislocated"}[!o.Rejected()],
-						fmt.Sprintf("%s, fault %s delivered %s: %s", name, f.kind, delivery, bad), map[string]interface{}{"project": p})
-				}
-			})
+				})
+			}
 		}
 	})
 }
